@@ -3,6 +3,7 @@ import LyModel.XPath.LemmasLex
 import LyModel.XPath.LemmasLexRt
 import LyModel.XPath.LemmasParseA
 import LyModel.XPath.LemmasLexRtA
+import LyModel.XPath.LemmasLexRtT
 /-!
 # C08 — libyang's XPath tokenizer and parser against XPath 1.0 §3
 
@@ -134,6 +135,24 @@ theorem parse_render_abbrev_roundtrip (e : Expr) (hw : wf e = true) (hh : height
   have hlx := LemmasLexRtA.lex_renderW_lead e hw bs hb lead hl
   unfold parse parseFull
   cases h : lex (lead ++ renderAW bs e) with
+  | error er => simp [h, Except.toOption] at hlx
+  | ok ts =>
+    have : ts.map ptOf = atoks e := by simpa [h, Except.toOption] using hlx
+    simp [this, hp]
+
+/-- FREE SPACING: `parse (lead ++ renderG bs e) = some e` for the abbreviated text of `e` with ANY spacing `bs` that
+`Render.Spacing` admits: every gap is a (possibly EMPTY) string of blanks, and where it is empty the next byte is one that
+the tokenizer separates from the token anyway (`Render.followOk`: after a name / function name / node type / operator name
+one of `( ) [ ] / | = ! < > + * , @ ' " $`, after a Number or `.` one of these or `-`, after `/` not `/`, after `<` `>` not
+`=`, after every other token anything).  This covers `a/b[1]`, `f(x)`, `1+2`, `a -b`, `count(../k)>1` — and does not cover
+`a-b`, which is one name. -/
+theorem parse_render_free_roundtrip (e : Expr) (hw : wf e = true) (hh : height e ≤ XpConsts.maxBlockDepth)
+    (bs : List Bytes) (hb : Spacing (atoks e) bs []) (lead : Bytes) (hl : ∀ c ∈ lead, Path.isWs c = true) :
+    parse (lead ++ renderG bs e) = some e := by
+  obtain ⟨ps, hp⟩ := LemmasParseA.parseToks_rtoks e hw hh
+  have hlx := LemmasLexRtT.lex_renderG_lead e hw bs hb lead hl
+  unfold parse parseFull
+  cases h : lex (lead ++ renderG bs e) with
   | error er => simp [h, Except.toOption] at hlx
   | ok ts =>
     have : ts.map ptOf = atoks e := by simpa [h, Except.toOption] using hlx
